@@ -73,6 +73,16 @@ func encQuery(name string, lt uint64, id uint32, asker *quiet.Transport, payload
 // awaitReply polls the captured packets for the query response with the given id sent to the asker.
 // stop() may report that no reply will come (positive evidence, e.g. an error line in the node's log).
 func awaitReply(net *quiet.Net, asker *quiet.Transport, id uint32, stop func() bool) (raw []byte, resp quiet.MsgQueryResponse, ok bool) {
+	raw, resp, ok, timedOut := awaitReplyT(net, asker, id, stop)
+	if timedOut {
+		die("no reply and no evidence that none will come for query id %d within 10s", id)
+	}
+	return raw, resp, ok
+}
+
+// awaitReplyT: as awaitReply, but a timeout is reported to the caller (what the node under test does or fails
+// to do is an observation, not a harness fault).
+func awaitReplyT(net *quiet.Net, asker *quiet.Transport, id uint32, stop func() bool) (raw []byte, resp quiet.MsgQueryResponse, ok, timedOut bool) {
 	deadline := time.Now().Add(10 * time.Second)
 	for time.Now().Before(deadline) {
 		for _, p := range net.TakePackets() {
@@ -83,7 +93,7 @@ func awaitReply(net *quiet.Net, asker *quiet.Transport, id uint32, stop func() b
 				if len(m) > 0 && m[0] == quiet.TQueryResponse {
 					var r quiet.MsgQueryResponse
 					if quiet.Decode(m, &r) == nil && r.ID == id {
-						return m, r, true
+						return m, r, true, false
 					}
 				}
 			}
@@ -95,17 +105,16 @@ func awaitReply(net *quiet.Net, asker *quiet.Transport, id uint32, stop func() b
 					if len(m) > 0 && m[0] == quiet.TQueryResponse && p.ToAddr == asker.Addr() {
 						var r quiet.MsgQueryResponse
 						if quiet.Decode(m, &r) == nil && r.ID == id {
-							return m, r, true
+							return m, r, true, false
 						}
 					}
 				}
 			}
-			return nil, resp, false
+			return nil, resp, false, false
 		}
 		time.Sleep(50 * time.Microsecond)
 	}
-	die("no reply and no evidence that none will come for query id %d within 10s", id)
-	return
+	return nil, resp, false, true
 }
 
 // ---------------------------------------------------------------------------------------------- keyring (C22)
@@ -148,6 +157,7 @@ type kringObs struct {
 	Load loadObs `json:"load"`
 	Res  bool    `json:"res"`
 	FChg bool    `json:"fchg"`
+	Rep  bool    `json:"rep"` // the request was answered with a decodable key response (API calls: returned)
 }
 
 // loadKeyring is the next start of the agent: agent.Create with KeyringFile runs the agent's loader and leaves
@@ -199,9 +209,18 @@ func runKeyring(inputs []json.RawMessage, tr *tracer) summary {
 		if err := os.WriteFile(path, fb, 0o600); err != nil {
 			die("%v", err)
 		}
+		// The start of the node is an observed step like any other: if the agent's loader refuses the file, that
+		// is recorded (and judged by the reload clause); the node is then started on the same keys directly.
 		lo, ring := loadKeyring(path)
-		if !lo.OK {
-			die("initial keyring file does not load")
+		if ring == nil {
+			var raw [][]byte
+			for _, k := range in.Init {
+				raw = append(raw, keyBytes(k))
+			}
+			var kerr error
+			if ring, kerr = memberlist.NewKeyring(raw, raw[0]); kerr != nil {
+				die("harness keyring: %v", kerr)
+			}
 		}
 		net := quiet.NewNet()
 		net.Cut = func(from, to string) bool { return true }
@@ -215,10 +234,10 @@ func runKeyring(inputs []json.RawMessage, tr *tracer) summary {
 		}
 		asker := net.NewTransport("asker")
 		tr.reset(in.ID, map[string]interface{}{"kind": "keyring", "init": in.Init})
-		tr.step(map[string]interface{}{"a": "kinit"}, kringObs{Ring: ringIDs(ring), Load: lo, Res: true})
+		tr.step(map[string]interface{}{"a": "kinit"}, kringObs{Ring: ringIDs(ring), Load: lo, Res: true, Rep: true})
 		for si, st := range in.Steps {
 			before, _ := os.ReadFile(path)
-			res := false
+			res, replied := false, true
 			if st.K == 7 {
 				km := nd.Serf.KeyManager()
 				var err error
@@ -235,21 +254,23 @@ func runKeyring(inputs []json.RawMessage, tr *tracer) summary {
 				var payload []byte
 				if st.K == 6 {
 					payload = []byte{msgKeyRequest, 0xc1, 0xff, 0x00}
+				} else if st.K == 8 {
+					payload = []byte{}
 				} else {
 					payload = mpack(msgKeyRequest, keyRequest{Key: keyBytes(st.K)})
 				}
 				id := uint32(100000 + si)
 				nd.Del.NotifyMsg(encQuery("_serf_"+st.Op+"-key", uint64(si+1), id, asker, payload))
-				_, r, _ := awaitReply(net, asker, id, nil)
+				_, r, ok, _ := awaitReplyT(net, asker, id, nil)
 				var kr nodeKeyResponse
-				if len(r.Payload) < 1 || r.Payload[0] != msgKeyResponse || munpack(r.Payload[1:], &kr) != nil {
-					die("undecodable key response %v", r.Payload)
+				if !ok || len(r.Payload) < 1 || r.Payload[0] != msgKeyResponse || munpack(r.Payload[1:], &kr) != nil {
+					replied = false // no (decodable) answer within 10s: observed, not judged as a rejection
 				}
-				res = kr.Result
+				res = replied && kr.Result
 			}
 			after, _ := os.ReadFile(path)
 			lo, _ := loadKeyring(path)
-			tr.step(st, kringObs{Ring: ringIDs(ring), Load: lo, Res: res, FChg: !bytes.Equal(before, after)})
+			tr.step(st, kringObs{Ring: ringIDs(ring), Load: lo, Res: res, FChg: !bytes.Equal(before, after), Rep: replied})
 			sum["steps"]++
 			nd.Drain()
 		}
@@ -351,8 +372,35 @@ func (c *cluster) shutdown() {
 	}
 }
 
+// realSilentFailure is the reply payload a real node sends when it cannot decode a key request: the real
+// handler (handleUseKey) is given a corrupt request and its reply is captured on the transport.  At the pinned
+// commit and since: Result = false with an EMPTY message.
+var realSilentFailure []byte
+
+func captureSilentFailure() {
+	net := quiet.NewNet()
+	net.Cut = func(from, to string) bool { return true }
+	nd, err := quiet.NewNode(net, "silent-failure-node", nil)
+	if err != nil {
+		die("create: %v", err)
+	}
+	asker := net.NewTransport("asker")
+	nd.Del.NotifyMsg(encQuery("_serf_use-key", 1, 424242, asker, []byte{msgKeyRequest, 0xc1, 0xff, 0x00}))
+	_, r, ok, _ := awaitReplyT(net, asker, 424242, nil)
+	var kr nodeKeyResponse
+	if ok && len(r.Payload) > 1 && r.Payload[0] == msgKeyResponse && munpack(r.Payload[1:], &kr) == nil && !kr.Result && kr.Message == "" {
+		realSilentFailure = r.Payload
+	} else {
+		// this tree's handlers answer differently: fall back to the encoding of the same class of reply
+		realSilentFailure = mpack(msgKeyResponse, nodeKeyResponse{Result: false})
+	}
+	_ = nd.Serf.Shutdown()
+}
+
 func aggPayload(r aggReply) []byte {
 	switch r.Kind {
+	case 7: // failed, no message: what a real handler answers to a request it cannot decode
+		return realSilentFailure
 	case 1, 2, 3:
 		kr := nodeKeyResponse{Result: r.Kind != 3, PrimaryKey: aggKeyName(r.PK)}
 		if r.Kind == 2 {
@@ -467,6 +515,7 @@ func runKeyAgg(inputs []json.RawMessage, tr *tracer) summary {
 		ins = append(ins, in)
 	}
 	progress(*fOut, *fSkip)
+	captureSilentFailure()
 	// independent inputs: a few workers, each with its own clusters (one per member count)
 	const workers = 6
 	obs := make([]aggObs, len(ins))
